@@ -18,7 +18,7 @@ RULE = (
     "survivors (none, HMM); parallel runs equal the serial run. Non-trivial = a filtered bin, or > 1 segment on a chromosome, or "
     "an arm split; distinct = distinct case JSON."
 )
-QUICK = {"examples": 320, "shards": 16, "budget_s": 500, "shrink": False}
+QUICK = {"examples": 960, "shards": 16, "budget_s": 500, "shrink": False}
 THOROUGH = {"examples": 4000, "shards": 16, "budget_s": 3000}
 ASSUMPTIONS = [
     "bins of a chromosome are sorted and non-overlapping; gene names contain no commas",
@@ -43,7 +43,11 @@ def strategy(draw):
         n = draw(st.one_of(st.integers(1, 12), st.integers(1, 120), st.integers(103, 400)))
         chroms.append({
             "name": nm, "n": n,
-            "gap": draw(st.sampled_from([None, None, "central", "central", "edge", "small"])),
+            # "double": a second centromere-sized gap inside an arm; "null_run": an interior run of null-coverage bins
+            # spanning > 100 kb - either way the filtered arm itself holds a wide gap, which the haar method re-splits
+            # (seeded change C03i rewrote the end-point stretch by row label, and the re-split leaves duplicate labels)
+            "gap": draw(st.sampled_from([None, None, "central", "central", "edge", "small", "double"])),
+            "null_run": draw(st.sampled_from([0, 0, 0, 0, 30, 60])),
             "gap_frac": draw(st.sampled_from([0.3, 0.5, 0.5, 0.7])),
             "steps": draw(st.lists(st.tuples(st.integers(0, 1000), st.sampled_from([-1.0, 0.585, 1.0, -2.0, 0.3])), max_size=3)),
             "null_left": draw(st.sampled_from([0, 0, 1, 3])), "null_right": draw(st.sampled_from([0, 0, 1, 3])),
@@ -63,7 +67,13 @@ def build(case):
         n = c["n"]
         pos = int(rng.integers(0, 50000)) + gen.offset_for(case)
         gap_at = None
-        if c["gap"] == "central" and n >= 103:
+        gap2_at = None
+        run = range(0)
+        if c.get("null_run") and n >= 2 * 60 + c["null_run"]:
+            run = range(n // 2 - c["null_run"] // 2, n // 2 - c["null_run"] // 2 + c["null_run"])
+        if c["gap"] == "double" and n >= 170:
+            gap_at, gap2_at = n // 3, (2 * n) // 3
+        elif c["gap"] == "central" and n >= 103:
             margin = max(50, int(round(0.1 * n)))
             lo, hi = margin + 1, n - margin - 1
             gap_at = min(max(int(round(n * c["gap_frac"])), lo), hi)
@@ -76,12 +86,14 @@ def build(case):
         gene_run = 0
         gname = "G%d_0" % ci
         for i in range(n):
-            if i == gap_at:
+            if i == gap_at or i == gap2_at:
                 pos += (150000 + int(rng.integers(0, 10 ** 6))) if c["gap"] != "small" else 60000
             if i in cuts:
                 level = cuts[i]
             size = int(rng.integers(100, 2001))
             null = i < c["null_left"] or i >= n - c["null_right"] or rng.random() < c["null_frac"]
+            if i in run:
+                size, null = size + 4000, True
             if case["all_null_chrom"] and len(case["chroms"]) > 1 and ci == (case["seed"] % len(case["chroms"])):
                 null = True  # one chromosome (first, middle or last) loses every bin
             v = level + float(rng.normal(0, case["sd"]))
